@@ -12,6 +12,7 @@
 import GherkinVerif.Lemmas.StopFirst
 import GherkinVerif.Gen.ParserTable
 import GherkinVerif.Gen.Dialects
+import GherkinVerif.KDecide
 namespace GV
 
 /-- If collecting mode rejects a document with the error list `e :: rest`, stop-at-first-error
@@ -87,6 +88,6 @@ example :
     (MState.init Gen.dialects (lit "en")).map
       (fun μ => rejectedAt (parseWith Gen.dialects Gen.parserTable true μ 0
         (lit "Feature: f\nScenario: s\nGiven x\n|a|b|\n|c|\nbogus\n")).1) =
-      some (some [(6, 1)]) := by decide +kernel
+      some (some [(6, 1)]) := by kdecide
 
 end GV
